@@ -192,6 +192,16 @@ ActTamperComm(out, h, what, d) ==
   /\ Finish("tamper_comm", [ok |-> TRUE], (out :> TamperedComm(env[h], what, d)),
             [op |-> "tamper_comm", out |-> out, src |-> h, what |-> what, d |-> d])
 
+\* a signer whose nonce *scalars* are negated while the stored commitments are kept (state
+\* restored from a tampered file, or a Taproot signer applying the BIP-340 negation with the
+\* wrong sign): sign() accepts the nonces (the commitments match the package) and produces a
+\* share that is not the honest one
+ActNegNonces(out, h) ==
+  /\ Has(h)
+  /\ ro' = ro
+  /\ Finish("neg_nonces", [ok |-> TRUE], (out :> [env[h] EXCEPT !.hiding = Neg(@), !.binding = Neg(@)]),
+            [op |-> "neg_nonces", out |-> out, src |-> h])
+
 \* coordinator: SigningPackage::new(slots : id -> commitment handle, msg)
 ActPackage(out, msg, slots) ==
   /\ \A i \in DOMAIN slots : Has(slots[i])
